@@ -288,6 +288,13 @@ func (s *session) checkRetained() string {
 			return "corrupt:" + r.what
 		}
 	}
+	for _, r := range s.retainedP {
+		for i, p := range r.view {
+			if (p.Value() == nil) != (r.vals[i] == nil) || string(p.Value()) != string(r.vals[i]) || p.Format() != r.fmts[i] {
+				return "corrupt:parameters"
+			}
+		}
+	}
 	return "ok"
 }
 
